@@ -45,7 +45,7 @@ type Worker struct {
 var defaultInitAllowed = []string{
 	"unicode", "unicode/utf8", "unicode/utf16", "strconv", "strings", "bytes", "sort", "math", "math/bits", "io",
 	"internal/bytealg", "internal/stringslite", "slices", "cmp", "iter", "maps", "hash/fnv", "hash",
-	"internal/itoa", "internal/byteorder", "container/list", "encoding/base64", "encoding/binary", "encoding/hex",
+	"internal/itoa", "internal/byteorder", "container/list", "encoding/base64", "encoding/binary", "encoding/hex", "bufio",
 }
 
 func NewWorker(prog *ssa.Program, mainpkg *ssa.Package, opts Options) (*Worker, error) {
